@@ -19,9 +19,14 @@
      - the TYPED decoder reads the byte stream directly (DecodeInt64, DecodeBytes,
        ReadArrayStart + element walk ...); here it consumes the ITEM that the
        byte-level walk [dec_naked] produces, and each typed read is modelled as a
-       function [rd_*] of that item (C01/Compose<Fmt>.v, from the driver source);
-       that a typed read on the bytes equals [rd_*] on the item is not proved
-       (C07 models the numeric ones on bytes);
+       function [rd_*] of that item (C01/Compose<Fmt>.v, from the driver source).
+       For msgpack and simple the numeric reads are no longer only transcribed:
+       C01_msgpack_typed_reads / C01_simple_typed_reads below prove that, on the bytes
+       of every integer / nil / float leaf the encoder writes, C07's byte-level typed
+       decoder model (C07/Model.v, tied to the real DecodeInt64 / DecodeUint64 /
+       DecodeFloat64 by the C07 correspondence) returns what the generic decoder
+       returns reading [rd_*] on the item.  Still transcribed: float32 destinations,
+       the string / bytes / time / bool reads, the container walk, cbor and binc;
      - reflection / unsafe value access (a Go value is a [gv] tree), the resolved
        struct field list (C16), and everything Generic/Dec.v lists as not modelled:
        merge into non-zero destinations (C19), interface slots (C15), extensions /
@@ -30,8 +35,8 @@
    Only statements, closed by [exact], with [Print Assumptions] beneath each. *)
 From Coq Require Import List NArith ZArith Bool Permutation.
 From Verif Require Import Base.Outcome Gen.Consts Wire.Item Generic.Types Generic.Enc Generic.Dec.
-From Verif Require Import C01.ComposeFloat C01.ComposeSimple C01.ComposeMsgpack C01.ComposeCbor C01.ComposeCborTime C01.ComposeBinc.
-From Verif Require Wire.Simple Wire.Msgpack Wire.Cbor C10.CborConv Wire.Binc Wire.BincProofs.
+From Verif Require Import C01.ComposeFloat C01.ComposeSimple C01.ComposeMsgpack C01.ComposeCbor C01.ComposeCborTime C01.ComposeBinc C01.ComposeTyped.
+From Verif Require Wire.Simple Wire.Msgpack Wire.Cbor C10.CborConv Wire.Binc Wire.BincProofs C07.Model.
 Import ListNotations.
 
 (* ---------------- simple ---------------- *)
@@ -203,6 +208,46 @@ Theorem C01_binc_roundtrip :
 Proof. exact binc_compose. Qed.
 Print Assumptions C01_binc_roundtrip.
 
+(* ---------------- typed reads on bytes = typed reads on the item (msgpack, simple) ---------------- *)
+
+(* [typed W O k j] = the generic decoder of_item W O 0 (ty_of k) j (through is_nil / rd_int / rd_uint /
+   rd_f64 of the driver record), the stored value read off as C07 does; [zb] = the bytes as C07's Z list.
+   For every option vector and ANY trailing bytes (the answer does not depend on them):
+     - every integer item in the encoder's range (IInt: int64, IUint: uint64; leaf_ok: not >= 2^63 under
+       SignedInteger) into each of the 11 integer kinds: the same value, or the same error class
+       (EOverflow out of range, EOther negative into unsigned);
+     - nil into each of the 13 kinds: zero;
+     - a float64 / float32 item into float64: the same bits (the float32 widened exactly).
+   Not covered: float32 destinations (C07 rounds with f64_to_f32; exactness on widened float32s not
+   proved), integer <-> float cross-kind reads (rd_* abstain: Err EUnsupported), cbor, binc. *)
+Theorem C01_msgpack_typed_reads : forall (Of : Msgpack.eopts) (D : Msgpack.dopts) (O : gopts) (rest : list N),
+  (forall k i, C07.Model.is_int_kind k = true -> int_item i -> leaf_ok (W_msgpack Of D) i = true ->
+     C07.Model.decode C07.Model.msgpack k (zb (Msgpack.enc Of i ++ rest)) = typed (W_msgpack Of D) O k (wn (W_msgpack Of D) i)) /\
+  (forall k, C07.Model.decode C07.Model.msgpack k (zb (Msgpack.enc Of INil ++ rest)) = typed (W_msgpack Of D) O k (wn (W_msgpack Of D) INil)) /\
+  (forall b, (b < 2 ^ 64)%N ->
+     C07.Model.decode C07.Model.msgpack C07.Model.KFloat64 (zb (Msgpack.enc Of (IF64 b) ++ rest))
+       = typed (W_msgpack Of D) O C07.Model.KFloat64 (wn (W_msgpack Of D) (IF64 b))) /\
+  (forall b, (b < 2 ^ 32)%N ->
+     C07.Model.decode C07.Model.msgpack C07.Model.KFloat64 (zb (Msgpack.enc Of (IF32 b) ++ rest))
+       = typed (W_msgpack Of D) O C07.Model.KFloat64 (wn (W_msgpack Of D) (IF32 b))).
+Proof. exact msgpack_typed_reads. Qed.
+Print Assumptions C01_msgpack_typed_reads.
+
+(* simple: the same, in value or map-key position [key]; leaf_ok additionally excludes a zero scalar
+   under EncZeroValuesAsNil (written as nil) *)
+Theorem C01_simple_typed_reads : forall (o : Simple.eopts) (D : Simple.dopts) (O : gopts) (key : bool) (rest : list N),
+  (forall k i, C07.Model.is_int_kind k = true -> int_item i -> leaf_ok (W_simple o D) i = true ->
+     C07.Model.decode C07.Model.simple k (zb (Simple.enc o key i ++ rest)) = typed (W_simple o D) O k (wn (W_simple o D) i)) /\
+  (forall k, C07.Model.decode C07.Model.simple k (zb (Simple.enc o key INil ++ rest)) = typed (W_simple o D) O k (wn (W_simple o D) INil)) /\
+  (forall b, (b < 2 ^ 64)%N -> leaf_ok (W_simple o D) (IF64 b) = true ->
+     C07.Model.decode C07.Model.simple C07.Model.KFloat64 (zb (Simple.enc o key (IF64 b) ++ rest))
+       = typed (W_simple o D) O C07.Model.KFloat64 (wn (W_simple o D) (IF64 b))) /\
+  (forall b, (b < 2 ^ 32)%N -> leaf_ok (W_simple o D) (IF32 b) = true ->
+     C07.Model.decode C07.Model.simple C07.Model.KFloat64 (zb (Simple.enc o key (IF32 b) ++ rest))
+       = typed (W_simple o D) O C07.Model.KFloat64 (wn (W_simple o D) (IF32 b))).
+Proof. exact simple_typed_reads. Qed.
+Print Assumptions C01_simple_typed_reads.
+
 (* ---------------- non-vacuity ---------------- *)
 Definition cx_ty : ty :=
   TStruct [([110; 97]%N, TMap TString (TSlice (TPtr (TInt W16))));
@@ -358,3 +403,24 @@ Proof.
   split; [vm_compute; repeat first [reflexivity | exact I | (intro; discriminate) | apply conj | right | eexists]|].
   repeat apply conj; vm_compute; reflexivity.
 Qed.
+
+(* typed reads: both sides computed -- a value, an overflow, a negative into unsigned, unsigned >= 2^63
+   into int64, nil, a widened float32 *)
+Example C01_typed_reads_nonvacuous :
+  let Of := Msgpack.mkeopts true false false false in
+  let D := Msgpack.mkdopts true false false 0 in
+  let W := W_msgpack Of D in
+  let dec k i := C07.Model.decode C07.Model.msgpack k (zb (Msgpack.enc Of i ++ [7; 7]%N)) in
+  dec C07.Model.KInt16 (IInt (-300)%Z) = Ok (-300)%Z /\ typed W cx_O1 C07.Model.KInt16 (wn W (IInt (-300)%Z)) = Ok (-300)%Z /\
+  dec C07.Model.KUint8 (IUint 300%N) = Err EOverflow /\ typed W cx_O1 C07.Model.KUint8 (wn W (IUint 300%N)) = Err EOverflow /\
+  dec C07.Model.KUint16 (IInt (-5)%Z) = Err EOther /\ typed W cx_O1 C07.Model.KUint16 (wn W (IInt (-5)%Z)) = Err EOther /\
+  dec C07.Model.KInt64 (IUint 18446744073709551615%N) = Err EOverflow /\
+  typed W cx_O1 C07.Model.KInt64 (wn W (IUint 18446744073709551615%N)) = Err EOverflow /\
+  dec C07.Model.KFloat32 INil = Ok 0%Z /\ typed W cx_O1 C07.Model.KFloat32 (wn W INil) = Ok 0%Z /\
+  dec C07.Model.KFloat64 (IF32 1069547520%N) = Ok 4609434218613702656%Z /\
+  typed W cx_O1 C07.Model.KFloat64 (wn W (IF32 1069547520%N)) = Ok 4609434218613702656%Z /\
+  (* simple, EncZeroValuesAsNil off, SignedInteger on *)
+  C07.Model.decode C07.Model.simple C07.Model.KUint32 (zb (Simple.enc (Simple.mkeopts false false) true (IInt 70000%Z) ++ [9]%N)) = Ok 70000%Z /\
+  typed (W_simple (Simple.mkeopts false false) (Simple.mkdopts true false 0)) cx_O1 C07.Model.KUint32
+        (wn (W_simple (Simple.mkeopts false false) (Simple.mkdopts true false 0)) (IInt 70000%Z)) = Ok 70000%Z.
+Proof. cbv zeta. repeat apply conj; vm_compute; reflexivity. Qed.
